@@ -472,9 +472,15 @@ def dtype_twin(cfg):
         terms = {o: (np.ascontiguousarray(t.real, dtype=float) if not np.any(t.imag) else t) for o, t in terms.items()}
         assert len({t.dtype for t in terms.values()}) == 2, "mixed variant needs one real and one complex term"
     snapshot = {o: t.copy() for o, t in terms.items()}
+    units = cfg.get("units_exp")
     try:
-        num = bd.numeric_run(P.sizes, E, terms, hermitian=P.hermitian, fd=cfg.get("fd"), max_order=P.max_order, callback=(P.carrier == "B"),
-                             int_h0=(variant == "int" and all(Fraction(x).denominator == 1 for x in cfg["spectrum"])))
+        if units is not None:
+            # the same problem in other units: every input (and the tolerance) multiplied by 2**units, exact in binary floating point;
+            # H_tilde must scale by the same factor and U, U^dagger must not change.  Unblocked matrices + subspace_indices + atol.
+            num = _scaled_units_run(P, E, terms, 2.0 ** int(units))
+        else:
+            num = bd.numeric_run(P.sizes, E, terms, hermitian=P.hermitian, fd=cfg.get("fd"), max_order=P.max_order, callback=(P.carrier == "B"),
+                                 int_h0=(variant == "int" and all(Fraction(x).denominator == 1 for x in cfg["spectrum"])))
     except Exception as e:  # noqa: BLE001
         is_lib, where = library_exception_info(e, pure_inputs=True)
         if not is_lib:
@@ -493,10 +499,10 @@ def dtype_twin(cfg):
             sc = max(1.0, float(np.max(np.abs(want))))
             worst = max(worst, err / sc)
             if err > 1e-9 * sc and bad is None:
-                bad = dict(series=NAMES[w], order=list(o), max_abs_error=err, scale=sc, dtype=variant)
+                bad = dict(series=NAMES[w], order=list(o), max_abs_error=err, scale=sc, dtype=variant, units_exp=units)
     mutated = [list(o) for o, t in terms.items() if not np.array_equal(t, snapshot[o])]
     if bad:
-        rec.direct_violation(f"{variant} run differs from the symbolic run at the same point", _sig(cfg, f"dtype-{variant}"), bad, reproduced=True)
+        rec.direct_violation(f"{variant} run differs from the symbolic run at the same point", _sig(cfg, f"dtype-{variant}" + (f"-units2^{units}" if units is not None else "")), bad, reproduced=True)
     elif mutated:
         rec.direct_violation(f"{variant} run modified the caller's input arrays", _sig(cfg, f"dtype-{variant}-input-mutated"), {"orders": mutated, "dtype": variant}, reproduced=True)
     else:
@@ -504,6 +510,42 @@ def dtype_twin(cfg):
     rec.nontrivial = True
     rec.sample = {"config": cfg, "variables": len(names)}
     return rec
+
+
+def _scaled_units_run(P, E, terms, s):
+    """block_diagonalize on unblocked numpy matrices (dict input, subspace_indices) in units scaled by s, tolerance scaled alike;
+    returns the dense results converted back to the original units."""
+    from pymablock import block_diagonalize
+    from pymablock.series import one, zero
+
+    E = np.array(E, dtype=complex)
+    E = E.real if np.allclose(E.imag, 0) else E
+    ham = {P.zero_order: np.diag(E) * s}
+    for o, t in terms.items():
+        ham[tuple(o)] = np.asarray(t) * s
+    kw = {}
+    fd = P.cfg.get("fd")
+    if fd is not None:
+        kw["fully_diagonalize"] = {int(b): np.array(m, dtype=bool) for b, m in fd.items()} if isinstance(fd, dict) else tuple(fd)
+    Ht, U, Ui = block_diagonalize(ham, subspace_indices=list(P.blockof), hermitian=P.hermitian, atol=1e-12 * s, **kw)
+
+    def full(S, order, factor):
+        rows = []
+        for i in range(P.nb):
+            row = []
+            for j in range(P.nb):
+                v = S[(i, j, *order)]
+                if v is zero:
+                    v = np.zeros((P.sizes[i], P.sizes[j]))
+                elif v is one:
+                    v = np.eye(P.sizes[i])
+                else:
+                    v = np.asarray(v.toarray() if hasattr(v, "toarray") else v, dtype=complex) / factor
+                row.append(np.asarray(v, dtype=complex))
+            rows.append(row)
+        return np.block(rows)
+
+    return ({o: full(Ht, o, s) for o in P.orders}, {o: full(U, o, 1.0) for o in P.orders}, {o: full(Ui, o, 1.0) for o in P.orders}, None)
 
 
 def dtype_twin_configs(tier, hermitian=True):
@@ -537,4 +579,11 @@ def dtype_twin_configs(tier, hermitian=True):
             if variant == "mixed" and len(b["terms"]) < 2:
                 continue
             out.append(dict(b, hermitian=hermitian, dtype=variant, _job="dtype_twin"))
+    # the same typed problems in much smaller / larger units (H and atol scaled by an exact power of two)
+    for b in (base[1], base[3], base[4], base[5]) + ((base[2], base[6]) if tier == "thorough" else ()):
+        if b["carrier"] != "A":
+            continue
+        for units in (-44, 30):
+            for variant in ("float64", "complex128"):
+                out.append(dict(b, hermitian=hermitian, dtype=variant, units_exp=units, _job="dtype_twin"))
     return out
